@@ -33,27 +33,57 @@ def _build(modname):
     pxd = src.with_suffix(".pxd")
     if pxd.exists():
         data += pxd.read_bytes()
-    h = hashlib.sha256(data + b"|directives-v2").hexdigest()[:16]
+    h = hashlib.sha256(data + b"|directives-v3").hexdigest()[:16]
     outdir = EXT / h
     out = outdir / (modname.split(".")[-1] + SUFFIX)
     if out.exists():
         return out
     outdir.mkdir(parents=True, exist_ok=True)
     inc = sysconfig.get_paths()["include"]
+    import os
+
+    tmp = outdir / f".{os.getpid()}.{out.name}"
     if kind == "c++":
-        cmd = ["g++", "-shared", "-fPIC", "-O1", f"-I{inc}", str(src), "-o", str(out)]
+        cmd = ["g++", "-shared", "-fPIC", "-O1", f"-I{inc}", str(src), "-o", str(tmp)]
     else:
-        csrc = outdir / (src.stem + ".c")
+        csrc = outdir / f".{os.getpid()}.{src.stem}.c"
         # the same compiler directives as /repo/setup.py
         r = subprocess.run([sys.executable, "-m", "cython", "-3", "-X", "boundscheck=False", "-X", "wraparound=False",
                             str(src), "-o", str(csrc)], capture_output=True, text=True)
         if r.returncode != 0:
             raise common.HarnessError(f"cython failed for {rel}: {r.stderr[-800:]}")
-        cmd = ["gcc", "-shared", "-fPIC", "-O1", f"-I{inc}", str(csrc), "-o", str(out)]
+        # cython's own diagnostics about indexing that is undefined under these directives
+        warn = [ln.strip() for ln in r.stderr.splitlines() if "is undefined" in ln or "out of bounds" in ln]
+        (outdir / (src.stem + ".warnings")).write_text("\n".join(warn))
+        cmd = ["gcc", "-shared", "-fPIC", "-O1", "-w", f"-I{inc}", str(csrc), "-o", str(tmp)]
     r = subprocess.run(cmd, capture_output=True, text=True)
     if r.returncode != 0:
         raise common.HarnessError(f"compiling {rel} failed: {r.stderr[-800:]}")
+    os.replace(tmp, out)           # atomic: concurrent checks may build the same module
+    if kind != "c++":
+        try:
+            csrc.unlink()
+        except OSError:
+            pass
     return out
+
+
+def cython_warnings():
+    """cython's 'negative indices ... undefined' style diagnostics for the working tree's .pyx
+    files under setup.py's directives (file:line: text)."""
+    res = []
+    for m, (rel, kind) in MODULES.items():
+        if kind != "cython":
+            continue
+        out = _build(m)
+        w = out.parent / (Path(rel).stem + ".warnings")
+        if not w.exists():                      # built by an older harness: rebuild to learn them
+            out.unlink()
+            out = _build(m)
+        for ln in w.read_text().splitlines():
+            if ln:
+                res.append(ln.replace(str(common.REPO) + "/", ""))
+    return res
 
 
 def load(modname):
